@@ -815,6 +815,45 @@ class SymStr(object):
     def encode(self, *a):
         return self
 
+    def has_free(self):
+        return any(isinstance(a, FreeChars) for a in self.atoms)
+
+    def replace(self, old, new, count=-1):
+        if not (isinstance(old, str) and isinstance(new, str) and len(old) == 1 and len(new) == 1 and count == -1):
+            raise Unsupported('replace with a multi-character pattern on a symbolic string')
+        out = []
+        for a in self.atoms:
+            if isinstance(a, str):
+                out.append(a.replace(old, new))
+            elif isinstance(a, FreeChars):
+                o, n = ord(old), ord(new)
+                out.append(FreeChars([z3.If(ch == o, z3.IntVal(n), ch) for ch in a.chars], a.length, a.maxlen))
+            elif isinstance(a, Fmt):
+                if old in a.alphabet():
+                    raise Unsupported('replace inside a formatted number')
+                out.append(a)
+            else:
+                raise Unsupported('replace over %r' % (a,))
+        return SymStr(out)
+
+    def __bool__(self):
+        total = 0
+        for a in self.atoms:
+            if isinstance(a, str) and a:
+                return True
+            if isinstance(a, (Fmt, Opaque)):
+                return True
+        t = z3.IntVal(0)
+        for a in self.atoms:
+            if isinstance(a, FreeChars):
+                t = t + a.length
+        return bool(wrap(t > 0))
+
+    def lower(self):
+        if self.has_free():
+            raise Unsupported('lower() of a free string')
+        return SymStr([a.lower() if isinstance(a, str) else a for a in self.atoms])
+
     def startswith(self, p):
         if isinstance(p, str) and self.atoms and isinstance(self.atoms[0], str):
             a = self.atoms[0]
@@ -865,6 +904,18 @@ def _fixed_width(f):
     return _check(z3.Not(z3.And(v >= 0, v < f.base ** f.width))) == z3.unsat
 
 
+def _alphabet(f):
+    """alphabet of a formatted field; the sign is dropped when the path condition entails v >= 0"""
+    a = f.alphabet()
+    if CTX.active:
+        try:
+            if _check(term(f.v) < 0) == z3.unsat:
+                a = a.replace('-', '')
+        except SolverUnknown:
+            pass
+    return a
+
+
 def _follows_ok(rest, alphabet):
     """The atom after a Fmt must start with a char outside the alphabet (unique parse)."""
     if not rest:
@@ -893,7 +944,7 @@ def atoms_eq(A, B):
                 B.pop(0)
             continue
         if isinstance(a, Fmt) and isinstance(b, Fmt):
-            alpha = set(a.alphabet()) | set(b.alphabet())
+            alpha = set(_alphabet(a)) | set(_alphabet(b))
             if _follows_ok(A[1:], alpha) and _follows_ok(B[1:], alpha):
                 conj.append(fmt_eq(a, b))
                 A.pop(0)
@@ -906,13 +957,22 @@ def atoms_eq(A, B):
                 continue
             raise Unsupported('ambiguous adjacent formatted fields')
         lit, f = (a, b) if isinstance(a, str) else (b, a)
-        if lit[0] not in f.alphabet():
+        if lit[0] not in _alphabet(f):
             return False
         raise Unsupported('literal vs formatted field alignment: %r / %r' % (lit, f))
 
 
 def str_eq(s1, s2):
-    return atoms_eq(_atoms(s1), _atoms(s2))
+    a1, a2 = _atoms(s1), _atoms(s2)
+    f1 = any(isinstance(a, FreeChars) for a in a1)
+    f2 = any(isinstance(a, FreeChars) for a in a2)
+    if f1 or f2:
+        if f1 and not f2 and all(isinstance(a, str) for a in a2):
+            return free_eq_literal(a1, ''.join(a2))
+        if f2 and not f1 and all(isinstance(a, str) for a in a1):
+            return free_eq_literal(a2, ''.join(a1))
+        raise Unsupported('equality of two strings with free parts')
+    return atoms_eq(a1, a2)
 
 
 def sym_format(spec, args):
@@ -1017,6 +1077,134 @@ class sym_str(metaclass=_StrMeta):
 
     join = builtins.str.join
     maketrans = builtins.str.maketrans
+
+
+class FreeChars(object):
+    """Atom of a SymStr: an attacker-chosen string as a bounded array of character codes
+    (z3 Ints in 1..255) with a symbolic length <= maxlen.  Everything the anchored code does with
+    request values (concat, single-character replace, comparison with literals, emptiness) is
+    expressed in linear integer arithmetic over these codes."""
+    __slots__ = ('chars', 'length', 'maxlen')
+
+    def __init__(self, chars, length, maxlen):
+        self.chars, self.length, self.maxlen = chars, length, maxlen
+
+    def __repr__(self):
+        return 'FreeChars(len<=%d)' % self.maxlen
+
+
+class FreeStr(object):
+    """factory only: FreeStr.var(name, maxlen) -> SymStr with one FreeChars atom"""
+
+    @staticmethod
+    def var(name, maxlen):
+        chars = [z3.Int('%s!c%d' % (name, i)) for i in range(maxlen)]
+        length = z3.Int('%s!len' % name)
+        CTX.solver.add(length >= 0, length <= maxlen)
+        for ch in chars:
+            CTX.solver.add(ch >= 1, ch <= 255)
+        return SymStr([FreeChars(chars, length, maxlen)])
+
+
+def free_value(model, symstr):
+    """python string for a SymStr made of literals and FreeChars under a model"""
+    out = []
+    for a in symstr.atoms:
+        if isinstance(a, str):
+            out.append(a)
+        elif isinstance(a, FreeChars):
+            n = model.eval(a.length, model_completion=True).as_long()
+            out.append(''.join(chr(model.eval(c, model_completion=True).as_long()) for c in a.chars[:n]))
+        else:
+            raise Unsupported('free_value of %r' % (a,))
+    return ''.join(out)
+
+
+def _atom_len(a):
+    if isinstance(a, str):
+        return len(a)
+    if isinstance(a, FreeChars):
+        return a.length
+    raise Unsupported('length of %r' % (a,))
+
+
+def _char_at(atoms, p):
+    """z3 term: character code at concrete position p of the concatenation (0 if beyond the end)"""
+    off = z3.IntVal(0)
+    res = z3.IntVal(0)
+    cases = []
+    for a in atoms:
+        if isinstance(a, str):
+            for i, ch in enumerate(a):
+                cases.append((off + i == p, z3.IntVal(ord(ch))))
+            off = off + len(a)
+        elif isinstance(a, FreeChars):
+            for i, ch in enumerate(a.chars):
+                cases.append((z3.And(off + i == p, i < a.length), ch))
+            off = off + a.length
+        else:
+            raise Unsupported('char_at over %r' % (a,))
+    for cond, val in reversed(cases):
+        res = z3.If(cond, val, res)
+    return z3.simplify(res)
+
+
+def free_eq_literal(atoms, lit):
+    """(literal|FreeChars)* == python string  as a z3 formula"""
+    total = z3.IntVal(0)
+    for a in atoms:
+        total = total + _atom_len(a)
+    conj = [total == len(lit)]
+    for p, ch in enumerate(lit):
+        conj.append(_char_at(atoms, p) == ord(ch))
+    return wrap(z3.And(*conj))
+
+
+def free_contains_char(atoms, chars):
+    """some (active) character of the string is one of `chars`"""
+    disj = []
+    for a in atoms:
+        if isinstance(a, str):
+            if any(c in a for c in chars):
+                return True
+        elif isinstance(a, FreeChars):
+            for i, ch in enumerate(a.chars):
+                disj.append(z3.And(i < a.length, z3.Or(*[ch == ord(c) for c in chars])))
+        elif isinstance(a, Fmt):
+            if any(c in a.alphabet() for c in chars):
+                raise Unsupported('separator inside a number alphabet')
+        else:
+            raise Unsupported('contains over %r' % (a,))
+    return wrap(z3.Or(*disj)) if disj else False
+
+
+def sym_strformat(fmt, *args, **kw):
+    """AST hook for "literal".format(...): only plain {} / {0} / {name} fields"""
+    flat = list(args) + list(kw.values())
+    if not any(isinstance(a, (SymStr, Sym)) for a in flat):
+        return fmt.format(*args, **kw)
+    import string
+    out = ''
+    auto = 0
+    for lit, field, spec, conv in string.Formatter().parse(fmt):
+        out = out + lit
+        if field is None:
+            continue
+        if spec or conv:
+            raise Unsupported('format spec with symbolic argument')
+        if field == '':
+            v = args[auto]
+            auto += 1
+        elif field.isdigit():
+            v = args[int(field)]
+        else:
+            v = kw[field]
+        if isinstance(v, Sym):
+            v = sym_str(v)
+        elif not isinstance(v, SymStr):
+            v = builtins.str(v)
+        out = out + v
+    return out
 
 
 class SymPath(object):
@@ -1161,6 +1349,10 @@ class _Rewrite(ast.NodeTransformer):
                 and isinstance(f.value.value, str) and len(node.args) == 1 and not node.keywords):
             return ast.copy_location(ast.Call(func=ast.Name(id='__sym_join__', ctx=ast.Load()),
                                               args=[f.value, node.args[0]], keywords=[]), node)
+        if (isinstance(f, ast.Attribute) and f.attr == 'format' and isinstance(f.value, ast.Constant)
+                and isinstance(f.value.value, str)):
+            return ast.copy_location(ast.Call(func=ast.Name(id='__sym_strformat__', ctx=ast.Load()),
+                                              args=[f.value] + node.args, keywords=node.keywords), node)
         return node
 
     def visit_BoolOp(self, node):
@@ -1289,7 +1481,7 @@ def shadow_builtins():
     b.update(int=sym_int, float=sym_float, bool=sym_bool, round=sym_round, range=sym_range,
              min=sym_min, max=sym_max, sorted=sym_sorted, sum=sym_sum, str=sym_str,
              divmod=sym_divmod, pow=sym_pow,
-             __sym_mod__=sym_mod, __sym_join__=sym_join, __sym_and__=_sym_and, __sym_or__=_sym_or,
+             __sym_mod__=sym_mod, __sym_join__=sym_join, __sym_strformat__=sym_strformat, __sym_and__=_sym_and, __sym_or__=_sym_or,
              __sym_not__=_sym_not, __sym_ite__=_sym_ite)
     return b
 
